@@ -40,6 +40,7 @@ EVRPC_GENERATE(NeverReply, msg, kill)
 extern "C" int __lsan_do_recoverable_leak_check(void);
 #define K_UNSTARTED_LEAK "C43/unstarted-request-leaks-http-request"
 #define K_GEN_LEAK "C43/generated-unmarshal-leaks-failed-array-element"
+#define K_STRANDED "C43/queued-request-stranded-after-unstarted"
 #define K_ZERO_STRUCT "ubsan:null-pointer-passed-as-argument-which-is@buffer.c"   /* evtag_unmarshal() of a zero-length item: evbuffer_add(dst, NULL, 0) */
 
 namespace {
@@ -135,7 +136,7 @@ KillV reply_for(const MsgV &q) { KillV k; k.has_action = true; k.action = "a:" +
 struct World;
 struct Rec { World *w; int id; int kind; /* 0 Message 1 NeverReply */ MsgV q; struct msg *m = nullptr; struct kill *k = nullptr;
   int cb_calls = 0; int status = -1; bool out_term = false, in_term = false, server_non200 = false; bool has_override = false, override_ok = false; KillV override_v; bool override_of_non200 = false;
-  int handler_calls = 0; };
+  int handler_calls = 0; bool scheduled = false; /* reached the pool's output hook (only tracked with client hooks) */ };
 struct Saved { void *rpc; int kind; MsgV q; };   // handler invocation not answered yet
 struct Paused { void *vbase; void *ctx; int site; };
 struct HookSite { World *w; int site; void *vbase; };   // 0 client-out 1 client-in 2 server-in 3 server-out
@@ -214,6 +215,8 @@ void make_request(World &w, bool in_cb) {
 }
 
 // ---------------------------------------------------------------- hooks
+// Is a request other than r still waiting in the pool's queue (made, not completed, never reached the output hook)?
+bool other_queued(World &w, Rec *r) { if (!w.client_hooks) return false; for (Rec *o : w.recs) if (o != r && o->cb_calls == 0 && !o->scheduled) return true; return false; }
 int hook_decide(World &w) { if (w.quiet) return EVRPC_CONTINUE; int d = w.s->below(8); return d == 6 ? EVRPC_TERMINATE : d == 7 ? EVRPC_PAUSE : EVRPC_CONTINUE; }
 Rec *rec_from_buf(World &w, struct evbuffer *evbuf) {
   size_t n = evbuffer_get_length(evbuf); std::string body(n, 0); if (n) evbuffer_copyout(evbuf, &body[0], n);
@@ -230,7 +233,8 @@ int hook_cb(void *ctx, struct evhttp_request *req, struct evbuffer *evbuf, void 
   else if (hs->site == 2) r = rec_from_buf(w, evbuf);   // may be NULL when the relay rewrote the request
   else { EVRPC_STRUCT(Message) *rs = (EVRPC_STRUCT(Message) *)ctx; MsgV v = read_msg(rs->request); int id = id_of(v.from); if (id >= 0 && id < (int)w.recs.size()) r = w.recs[id]; }
   int d = hook_decide(w);
-  if (d == EVRPC_TERMINATE && hs->site == 0 && verif_known(K_UNSTARTED_LEAK)) { verif_known_skipped(K_UNSTARTED_LEAK); d = EVRPC_CONTINUE; }
+  if (hs->site == 0 && r) r->scheduled = true;
+  if (d == EVRPC_TERMINATE && hs->site == 0 && verif_known(K_STRANDED) && other_queued(w, r)) { verif_known_skipped(K_STRANDED); d = EVRPC_CONTINUE; }
   TR("    hook site=%d q%d -> %s", hs->site, r ? r->id : -1, d == EVRPC_CONTINUE ? "CONTINUE" : d == EVRPC_TERMINATE ? "TERMINATE" : "PAUSE");
   if (d == EVRPC_PAUSE) { w.paused.push_back(Paused{hs->vbase, ctx, hs->site}); w.n_pauses++; }
   if (d == EVRPC_TERMINATE && r) { if (hs->site == 0) r->out_term = true; else if (hs->site == 1) r->in_term = true; else r->server_non200 = true; }
@@ -246,7 +250,7 @@ Rec *rec_of_paused(World &w, const Paused &p) {   // only used to attribute resu
 void resume_one(World &w, size_t i, int res) {
   Paused p = w.paused[i]; w.paused.erase(w.paused.begin() + i);
   Rec *r = rec_of_paused(w, p);
-  if (res == EVRPC_TERMINATE && p.site == 0 && verif_known(K_UNSTARTED_LEAK)) { verif_known_skipped(K_UNSTARTED_LEAK); res = EVRPC_CONTINUE; }
+  if (res == EVRPC_TERMINATE && p.site == 0 && verif_known(K_STRANDED) && other_queued(w, r)) { verif_known_skipped(K_STRANDED); res = EVRPC_CONTINUE; }
   TR("resume site=%d q%d with %s", p.site, r ? r->id : -1, res == EVRPC_CONTINUE ? "CONTINUE" : "TERMINATE");
   if (res == EVRPC_TERMINATE && r) { if (p.site == 0) r->out_term = true; else if (p.site == 1) r->in_term = true; else r->server_non200 = true; }
   w.n_resumes++;
@@ -354,8 +358,8 @@ bool relay_step(World &w) {
         if (dir == 1) c.cur_non200 = head.compare(0, 12, "HTTP/1.1 200") != 0;
         if (rewrite) { std::string nb = mutate_body(w, c, body, dir);
           TR("  relay: conn %zu rewrites %s #%d (q%d): %zu -> %zu bytes", ci, dir ? "response" : "request", no, c.cur_id, body.size(), nb.size());
-          if (dir == 0 && zero_len_struct(nb)) { if (verif_known(K_ZERO_STRUCT)) { verif_known_skipped(K_ZERO_STRUCT); nb.clear(); } else TR("  relay: this body has a zero-length struct element"); }
-          if (dir == 0 && gen_leak_possible(nb)) { if (verif_known(K_GEN_LEAK)) { verif_known_skipped(K_GEN_LEAK); nb.clear(); } else { w.gen_leak_forwarded = true; TR("  relay: this body fails inside a run element"); } }
+          if (dir == 0 && zero_len_struct(nb)) TR("  relay: this body has a zero-length struct element");   // K_ZERO_STRUCT (fixed): UBSan reports a regression
+          if (dir == 0 && gen_leak_possible(nb)) { w.gen_leak_forwarded = true; TR("  relay: this body fails inside a run element"); }   // K_GEN_LEAK (fixed): checked at the end
           if (dir == 0) { Rec *r = c.cur_id >= 0 ? w.recs[c.cur_id] : nullptr; MsgV v; bool ok = decode_msg(nb, &v);
             int kind = head.find("/.rpc.NeverReply") != std::string::npos ? 1 : 0;
             if (ok) w.forwarded_valid[kind].push_back(v);
@@ -468,6 +472,7 @@ extern "C" int LLVMFuzzerTestOneInput(const uint8_t *data, size_t size) {
   }
   bool pending = false; for (Rec *r : w.recs) if (r->cb_calls == 0) pending = true;
   if (pending) {   // whatever is still outstanding is stalled / lost on the wire: only a failure can complete it
+    if (w.client_hooks && w.n_unstarted) for (Rec *r : w.recs) CHECK(r->cb_calls != 0 || r->scheduled, K_STRANDED, "request q%d is still in the pool's queue although its connection is idle: the request scheduled before it was terminated by the output hook (UNSTARTED) and nothing schedules the next one", r->id);
     CHECK(w.disruptive, "C43/never-completed", "a request is still outstanding after the world went quiescent although nothing disrupted the connection");
     TR("--- kill the relay, advance the clock");
     relay_unlisten(w); for (auto &c : w.conns) if (!c.dead) conn_kill(c);
@@ -477,6 +482,7 @@ extern "C" int LLVMFuzzerTestOneInput(const uint8_t *data, size_t size) {
       while (!w.saved.empty()) { Saved sv = w.saved[0]; w.saved.erase(w.saved.begin()); finish(w, sv); }
       pump(w); }
   }
+  if (w.client_hooks && w.n_unstarted) for (Rec *r : w.recs) CHECK(r->cb_calls != 0 || r->scheduled, K_STRANDED, "request q%d never left the pool's queue: the request scheduled before it was terminated by the output hook (UNSTARTED) and nothing schedules the next one", r->id);
   for (Rec *r : w.recs) CHECK(r->cb_calls == 1, "C43/never-completed", "request q%d (%s): completion callback ran %d times by the time every connection was dead and 6 minutes had passed", r->id, r->kind ? "NeverReply" : "Message", r->cb_calls);
   // ---- teardown
   evrpc_pool_free(w.pool);
